@@ -223,11 +223,40 @@ type AstArt struct {
 	TypErr  string  `json:"typerr"`
 	Name    string  `json:"name"`
 	Typed   []EDecl `json:"typed"`
+	TPos    []TPos  `json:"tpos"` // positions recorded in the typed tree: per declaration, and per handle of a directive
 	RtSame  bool    `json:"rtsame"`  // typed(print(typed(text))) has the same structure as typed(text)
 	RtEqual bool    `json:"rtequal"` // the real Equal method agrees on two parses of the reprinted text, and disagrees after an edit
 	RtNote  string  `json:"rtnote"`
 	Prods   []Prod  `json:"prods"`
 	SpecOK  bool    `json:"specok"`
+}
+
+// TPos: where the typed tree says a declaration and the handles of a directive are ([offset, line, column]; -1 = none).
+type TPos struct {
+	D  []int   `json:"d"`
+	Hs [][]int `json:"hs"`
+}
+
+func posTriple(n interface{ Pos() *lexer.Position }) []int {
+	p := n.Pos()
+	if p == nil {
+		return []int{-1, -1, -1}
+	}
+	return []int{p.Offset, p.Line, p.Column}
+}
+
+func typedPositions(g *ebnfast.Grammar) []TPos {
+	out := []TPos{}
+	for _, d := range g.Decls {
+		t := TPos{D: posTriple(d), Hs: [][]int{}}
+		if v, ok := d.(*ebnfast.PrecedenceDecl); ok {
+			for _, h := range v.Handles {
+				t.Hs = append(t.Hs, posTriple(h))
+			}
+		}
+		out = append(out, t)
+	}
+	return out
 }
 
 func cmdAstExport(args []string) error {
@@ -258,7 +287,7 @@ func cmdAstExport(args []string) error {
 		}
 		normSpec(&s)
 		text, toks := printSpec(s)
-		a := AstArt{ID: fmt.Sprintf("%s-%d", s.Fam, n), Fam: s.Fam, Text: text, Toks: toks, Decls: s.Decls, Gen: []GNode{}, Typed: []EDecl{}, Prods: []Prod{}}
+		a := AstArt{ID: fmt.Sprintf("%s-%d", s.Fam, n), Fam: s.Fam, Text: text, Toks: toks, Decls: s.Decls, Gen: []GNode{}, Typed: []EDecl{}, TPos: []TPos{}, Prods: []Prod{}}
 		if err := safely(func() error {
 			p, err := ebnfparser.New("t.ebnf", strings.NewReader(text))
 			if err != nil {
@@ -285,6 +314,7 @@ func cmdAstExport(args []string) error {
 			g1 = g
 			a.Name = g.Name
 			a.Typed = typedDecls(g)
+			a.TPos = typedPositions(g)
 			return nil
 		}); err != nil {
 			a.TypErr = err.Error()
